@@ -444,6 +444,28 @@ fn build_proxy_bin() -> Result<String, String> {
     Ok(format!("{}/release/server_proxy", target))
 }
 
+/// The children must not outlive this process even if it is killed (vcheck kills a harness that
+/// exceeds its time budget): every child gets a per-run (empty) config file as its first argument,
+/// and a detached watchdog shell kills whatever carries that argument once this process is gone.
+fn tag_file() -> std::path::PathBuf {
+    std::env::temp_dir().join(format!("umh-hostile-{}.toml", std::process::id()))
+}
+
+fn start_watchdog() {
+    let tag = tag_file();
+    let _ = std::fs::write(&tag, b"");
+    let me = std::process::id();
+    let script = format!(
+        // files first: the `pkill` pattern also matches this shell's own command line
+        "while kill -0 {me} 2>/dev/null; do sleep 1; done; rm -f {tag} {tmp}/proxy-{me}-*.stderr; pkill -9 -f 'umh-hostile-{me}[.]toml'",
+        me = me, tag = tag.display(), tmp = std::env::temp_dir().display());
+    // own session: a kill of this process' group must not take the watchdog along
+    let r = Proc::new("setsid").arg("sh").arg("-c").arg(&script).stdin(Stdio::null()).stdout(Stdio::null()).stderr(Stdio::null()).spawn();
+    if r.is_err() {
+        let _ = Proc::new("sh").arg("-c").arg(&script).stdin(Stdio::null()).stdout(Stdio::null()).stderr(Stdio::null()).spawn();
+    }
+}
+
 fn spawn_proxy(bin: &str, tmp: &std::path::Path, ar: bool) -> Proxy {
     for attempt in 0..5 {
         let port = free_port();
@@ -451,7 +473,7 @@ fn spawn_proxy(bin: &str, tmp: &std::path::Path, ar: bool) -> Proxy {
         let errf = std::fs::File::create(&stderr_path).expect("stderr file");
         let mut child = Proc::new("sh")
             .arg("-c")
-            .arg(format!("ulimit -c 0; ulimit -v {}; exec {}", RLIMIT_BYTES / 1024, bin))
+            .arg(format!("ulimit -c 0; ulimit -v {}; exec {} {}", RLIMIT_BYTES / 1024, bin, tag_file().display()))
             .env("UNDERMOON_ADDRESS", format!("127.0.0.1:{}", port))
             .env("UNDERMOON_ANNOUNCE_ADDRESS", format!("127.0.0.1:{}", port))
             .env("UNDERMOON_ACTIVE_REDIRECTION", if ar { "true" } else { "false" })
@@ -1488,6 +1510,7 @@ fn child_stream(args: &Args, rng: &mut Rng) {
     };
     let ar = args.extra.get("ar").map(|x| x == "1").unwrap_or(false);
     let tmp = std::env::temp_dir();
+    start_watchdog();
     let backend = spawn_backend();
     let proxy = spawn_proxy(&bin, &tmp, ar);
     let mut cx = ChildCtx { bin, tmp, backend_port: backend.port, proxy, phase: "pre".into(), ar, epoch: 0, restarts: 0,
